@@ -52,15 +52,20 @@ MANIFEST_ENTRY = {
 _INP = {}
 
 
-def inputs_for(d, rate):
-    key = d
+def inputs_for(d, rate, family=None):
+    """family None: depolarising noise.  'x' / 'y': XZZX-deformed biased
+    noise along that axis - two parameter sets that differ only inside the
+    noise model's deformation_kwargs."""
+    key = (d, family)
     if key not in _INP:
         from panqec.codes import RotatedPlanar2DCode
         from panqec.error_models import PauliErrorModel
         from panqec.decoders import BeliefPropagationOSDDecoder
         from panqec.simulation import DirectSimulation
         code = RotatedPlanar2DCode(d, d)
-        em = PauliErrorModel(1 / 3, 1 / 3, 1 / 3)
+        em = PauliErrorModel(1 / 3, 1 / 3, 1 / 3) if family is None else \
+            PauliErrorModel(0.1, 0.1, 0.8, deformation_name='XZZX',
+                            deformation_kwargs={'deformation_axis': family})
         dec = BeliefPropagationOSDDecoder(code, em, 0.1)
         sim = DirectSimulation(code, em, dec, 0.1, verbose=False)
         _INP[key] = json.loads(json.dumps(sim._inputs, default=runner._js))
@@ -76,6 +81,14 @@ def ansatz(p, d, par):
 
 
 def make_records(case):
+    recs = []
+    fams = [None] if case.get('families', 1) == 1 else ['x', 'y']
+    for fam in fams:
+        recs += make_family_records(case, fam)
+    return recs
+
+
+def make_family_records(case, fam):
     par = case['params']
     recs = []
     for di, d in enumerate(case['distances']):
@@ -110,7 +123,7 @@ def make_records(case):
                 if case.get('ulp'):
                     for _ in range(ri % 3):
                         p_written = math.nextafter(p_written, 1.0)
-                recs.append({'inputs': inputs_for(d, p_written),
+                recs.append({'inputs': inputs_for(d, p_written, fam),
                              'results': {'n_runs': b - a, 'wall_time': 1.0,
                                          'effective_error': eff[a:b], 'success': suc[a:b],
                                          'codespace': cs[a:b]}})
@@ -178,17 +191,27 @@ def eval_case(case):
     recs = make_records(case)
     p_th = case['params'][0]
     rows = []
+    extra_rows = []
     for li, lay in enumerate(case['layouts']):
         seed, per_file = lay[0], lay[1]
         root = os.path.join(base, f'l{li}')
         target = write(root, recs, seed, per_file, lay[2] if len(lay) > 2 else 'dir')
         an = Analysis(target, verbose=False)
         th = an.thresholds
-        if len(th) != 1:
-            fail('one_threshold_row', f'{len(th)} rows')
+        if len(th) != case.get('families', 1):
+            fail('one_threshold_row', f"{len(th)} threshold rows for {case.get('families', 1)} "
+                 f'parameter set(s)')
             break
         rows.append(th.iloc[0])
+        extra_rows = [th.iloc[i] for i in range(1, len(th))] if li == 0 else extra_rows
     aux = None
+    for r in (extra_rows if rows and not fails else []):
+        # the second parameter set carries the same planted data
+        if r['fit_status'] != 'success' or abs(float(r['p_th_fss']) - float(rows[0]['p_th_fss'])) > \
+                1e-9 * max(1e-12, abs(float(rows[0]['p_th_fss']))):
+            fail('parameter_sets_fitted_separately',
+                 f"second parameter set: status {r['fit_status']!r}, p_th_fss {float(r['p_th_fss'])!r} "
+                 f"vs {float(rows[0]['p_th_fss'])!r} for identical data")
     if rows and not fails:
         r = rows[0]
         if r['fit_status'] != 'success':
@@ -301,6 +324,7 @@ def cases(draw):
     return {'params': [p_th, nu, A, B_raw, C], 'distances': dist, 'rates': rates,
             'trims': trims, 'N': N, 'layouts': layouts, 'shape': shape,
             'runs': draw(st.sampled_from([1, 1, 2, 4])), 'ulp': draw(st.booleans()),
+            'families': draw(st.sampled_from([1, 1, 2])),
             'oocs': ([0.0] * len(dist) if draw(st.booleans()) else
                      [draw(st.sampled_from([0.0, 0.1, 0.2, 0.3, 0.5])) for _ in dist])}
 
